@@ -228,6 +228,18 @@ def run(ctx):
                   'retrieve_object returns self.db[id][generation] with both parameters unmodified',
                   'retrieve_object returns %s' % norm(p.outcome[1])[:120])
 
+    # the lookup fails (leaving the mention unresolved) exactly on a real interface mismatch
+    def m_ty(a):
+        if a.text == 'type_name is None':
+            return ('asked', False)
+        if a.text == 'self.db[id][generation].type is None':
+            return ('typed', False)
+        if a.text == 'str_matcher(type_name).matches(self.db[id][generation].type)':
+            return ('same', True)
+        return None
+    probs = check_reach(rpaths, lambda e: e.kind == 'raise', m_ty, lambda F: F['asked'] and F['typed'] and not F['same'], universe=['asked', 'typed', 'same'])
+    ctx.check(not probs, 'C02.3', 'retrieve:type-mismatch-only', f_retr.loc(), 'a lookup is refused iff an interface was asked for, the entry has one, and they differ',
+              'retrieve_object raises=%s in scenario %s' % ((probs[0][2], probs[0][1]) if probs else ('', '')))
     # ---- C02.4 who creates -----------------------------------------------------------------------
     cs = ctor_sites(repo, ro)
     for f, s in cs:
